@@ -4,7 +4,9 @@
 use std::sync::Arc;
 use tokio_rustls::{TlsAcceptor, TlsConnector};
 
-pub const DIR: &str = "/verif/fixtures";
+pub fn dir() -> String {
+    format!("{}/fixtures", std::env::var("VERIF_DIR").unwrap_or_else(|_| "/verif".to_string()))
+}
 
 pub fn mint(names: &[&str], serial: u8, not_before: (i32, u8, u8), not_after: (i32, u8, u8)) -> (String, String) {
     let kp = rcgen::KeyPair::generate_for(&rcgen::PKCS_ED25519).expect("keypair");
@@ -20,19 +22,19 @@ pub fn mint(names: &[&str], serial: u8, not_before: (i32, u8, u8), not_after: (i
 }
 
 pub fn generate() {
-    std::fs::create_dir_all(DIR).unwrap();
+    std::fs::create_dir_all(dir()).unwrap();
     for (name, serial) in [("a", 1u8), ("b", 2u8)] {
         let (c, k) = mint(&["localhost", "sim.test"], serial, (2020, 1, 1), (2120, 1, 1));
-        std::fs::write(format!("{}/{}.cert.pem", DIR, name), c).unwrap();
-        std::fs::write(format!("{}/{}.key.pem", DIR, name), k).unwrap();
+        std::fs::write(format!("{}/{}.cert.pem", dir(), name), c).unwrap();
+        std::fs::write(format!("{}/{}.key.pem", dir(), name), k).unwrap();
     }
     let (c, k) = mint(&["localhost"], 3, (2000, 1, 1), (2001, 1, 1));
-    std::fs::write(format!("{}/expired.cert.pem", DIR), c).unwrap();
-    std::fs::write(format!("{}/expired.key.pem", DIR), k).unwrap();
+    std::fs::write(format!("{}/expired.cert.pem", dir()), c).unwrap();
+    std::fs::write(format!("{}/expired.key.pem", dir()), k).unwrap();
 }
 
 pub fn read(name: &str) -> String {
-    std::fs::read_to_string(format!("{}/{}", DIR, name)).unwrap_or_else(|e| {
+    std::fs::read_to_string(format!("{}/{}", dir(), name)).unwrap_or_else(|e| {
         eprintln!("harness error: fixture {} missing: {}", name, e);
         std::process::exit(2)
     })
@@ -40,7 +42,7 @@ pub fn read(name: &str) -> String {
 
 /// A fresh acceptor per run (rustls configs carry resumption state that would leak between runs).
 pub fn acceptor(which: &str) -> Arc<TlsAcceptor> {
-    let cfg = anytls_rs::util::create_server_config_from_files(format!("{}/{}.cert.pem", DIR, which), format!("{}/{}.key.pem", DIR, which)).unwrap_or_else(|e| {
+    let cfg = anytls_rs::util::create_server_config_from_files(format!("{}/{}.cert.pem", dir(), which), format!("{}/{}.key.pem", dir(), which)).unwrap_or_else(|e| {
         eprintln!("harness error: cannot load fixture {}: {}", which, e);
         std::process::exit(2)
     });
